@@ -35,9 +35,22 @@ func (valdec ptrDecoder) Decode(dec *Decoder, p interface{}, tag byte) {
 			*ptr = nil
 		}
 	case TagRef:
-		// resolve the reference for the pointer itself, so that a reference to an object
-		// that is still being decoded (a cycle) shares the object instead of copying it
-		dec.ReadReference(p)
+		o, ok := dec.readReferenceObject()
+		if !ok {
+			return
+		}
+		if reflect.TypeOf(o) == valdec.t.Type1() {
+			// share the referenced object: copying it would snapshot an object that may
+			// still be under construction (a cycle) and lose the sharing
+			*ptr = reflect2.PtrOf(o)
+			return
+		}
+		if *ptr == nil {
+			*ptr = valdec.et.UnsafeNew()
+		}
+		dec.pendingRef = o
+		valdec.elemDecoder.Decode(dec, valdec.et.PackEFace(*ptr), tag)
+		dec.pendingRef = nil
 	default:
 		if *ptr == nil {
 			*ptr = valdec.et.UnsafeNew()
